@@ -605,10 +605,10 @@ pub fn random_param(rng: &mut Rng, name: String) -> ParamDef {
     ParamDef { name, ty, default }
 }
 
-const HOSTILE_TYPE_NAMES: [&str; 22] = [
+const HOSTILE_TYPE_NAMES: [&str; 25] = [
     "Type", "Type_", "Self_", "Box", "Vec", "Option", "String_", "Vertex", "Adapter", "Foo", "foo",
     "FOO", "Foo_", "Crate", "UserID", "UserI_D", "User_Id", "HTTPServer", "HttpServer", "Http_Server",
-    "A_B", "AB",
+    "A_B", "AB", "Foo__", "Account", "Account_",
 ];
 const HOSTILE_FIELD_NAMES: [&str; 22] = [
     "type", "type_", "fn", "match", "self_", "crate_", "super_", "async", "await", "loop", "move",
@@ -617,12 +617,17 @@ const HOSTILE_FIELD_NAMES: [&str; 22] = [
 
 /// groups of names that collide (or nearly collide) under some case / underscore normalisation: a
 /// schema with hostile names draws most of them from ONE group so that colliding pairs actually co-occur
-const TYPE_FAMILIES: [&[&str]; 5] = [
+const TYPE_FAMILIES: [&[&str]; 7] = [
+    // collide under some normalisation: stubgen is expected to REFUSE (documented), never to emit a broken stub
     &["UserID", "UserI_D", "User_Id", "UserId", "User_ID"],
     &["HTTPServer", "HttpServer", "Http_Server", "HTTP_Server"],
-    &["Foo", "foo", "FOO", "Foo_", "_Foo", "F_oo"],
-    &["Type", "Type_", "Self_", "Box", "Vec", "Option", "Vertex", "Adapter"],
+    &["Foo", "foo", "FOO"],
     &["A_B", "AB", "Ab", "A_b", "aB"],
+    // near misses: distinct under stubgen's own conflict check, so a stub IS generated and every derived
+    // identifier (resolver functions, enum variants, conversion methods, modules) must still be distinct
+    &["Foo", "Foo_", "Foo__", "Foo_x"],
+    &["Type", "Type_", "Self_", "Box", "Vec", "Option", "Vertex", "Adapter"],
+    &["Account", "Account_", "Accounts", "Account2"],
 ];
 const FIELD_FAMILIES: [&[&str]; 4] = [
     &["abc", "Abc", "ABC", "a_b_c", "aBc", "abc_", "_abc", "aBC"],
